@@ -3,32 +3,368 @@ import WD.Model.Registry
 namespace WD.ProofsReg
 open WD WD.Reg
 
+/-! ### basic facts on `emitterOf` / `handlersOf` -/
+
+theorem emitterOf_some {s : State} {w : Watch} {e : Emitter} (h : s.emitterOf w = some e) :
+    e.watch = w ∧ e ∈ s.emitters := by
+  unfold State.emitterOf at h
+  have h1 := List.find?_some h
+  have h2 := List.mem_of_find?_eq_some h
+  simp at h1
+  exact ⟨h1, h2⟩
+
+theorem emitterOf_none_iff {s : State} {w : Watch} :
+    s.emitterOf w = none ↔ w ∉ s.emitters.map Emitter.watch := by
+  unfold State.emitterOf
+  simp
+
+theorem emitterOf_isSome_iff {s : State} {w : Watch} :
+    (s.emitterOf w).isSome ↔ w ∈ s.emitters.map Emitter.watch := by
+  cases h : s.emitterOf w with
+  | none => simpa using emitterOf_none_iff.mp h
+  | some e =>
+    have := emitterOf_some h
+    simp only [Option.isSome_some, List.mem_map, true_iff]
+    exact ⟨e, this.2, this.1⟩
+
+theorem handlersOf_ainsert (s : State) (w x : Watch) (v : List Handler) :
+    (alookup x (ainsert w v s.handlers)).getD [] = if x = w then v else s.handlersOf x := by
+  by_cases hx : x = w
+  · subst hx; simp [alookup_ainsert_self]
+  · have : w ≠ x := fun h => hx h.symm
+    simp [hx, alookup_ainsert_ne _ _ this, State.handlersOf]
+
+theorem handlersOf_aerase (s : State) (w x : Watch) :
+    (alookup x (aerase w s.handlers)).getD [] = if x = w then [] else s.handlersOf x := by
+  by_cases hx : x = w
+  · subst hx; simp [alookup_aerase_self]
+  · have : w ≠ x := fun h => hx h.symm
+    simp [hx, alookup_aerase_ne _ this, State.handlersOf]
+
+theorem getD_ainsert (l : List (Watch × List Handler)) (w x : Watch) (v : List Handler) :
+    (alookup x (ainsert w v l)).getD [] = if x = w then v else (alookup x l).getD [] := by
+  by_cases hx : x = w
+  · subst hx; simp [alookup_ainsert_self]
+  · have : w ≠ x := fun h => hx h.symm
+    simp [hx, alookup_ainsert_ne _ _ this]
+
+theorem getD_aerase (l : List (Watch × List Handler)) (w x : Watch) :
+    (alookup x (aerase w l)).getD [] = if x = w then [] else (alookup x l).getD [] := by
+  by_cases hx : x = w
+  · subst hx; simp [alookup_aerase_self]
+  · have : w ≠ x := fun h => hx h.symm
+    simp [hx, alookup_aerase_ne _ this]
+
+theorem mem_addW (l : List Watch) (w x : Watch) (h : x ∈ l) :
+    x ∈ (if l.contains w = true then l else l ++ [w]) := by
+  split <;> simp [h]
+
+theorem self_mem_addW (l : List Watch) (w : Watch) :
+    w ∈ (if l.contains w = true then l else l ++ [w]) := by
+  split
+  · rename_i h; simpa using h
+  · simp
+
+theorem isSome_alookup_ainsert (w x : Watch) (v : List Handler) (l : List (Watch × List Handler))
+    (h : (alookup x l).isSome) : (alookup x (ainsert w v l)).isSome := by
+  by_cases hx : w = x
+  · subst hx; simp [alookup_ainsert_self]
+  · rw [alookup_ainsert_ne _ _ hx]; exact h
+
+theorem map_watch_filter (l : List Emitter) (w : Watch) :
+    (l.filter (fun e => e.watch != w)).map Emitter.watch = (l.map Emitter.watch).filter (· != w) := by
+  induction l with
+  | nil => rfl
+  | cons a t ih =>
+    by_cases h : a.watch = w <;> simp [h, ih]
+
+/-! ### the simulation relation and the invariant -/
+
+def R (s : State) (m : Spec) : Prop :=
+  (∀ w, s.handlersOf w = m.handlers w) ∧ s.emitters.map Emitter.watch = m.scheduled ∧
+  s.alive = m.alive ∧ s.everStarted = m.everStarted
+
+structure Inv (s : State) : Prop where
+  nodup : (s.emitters.map Emitter.watch).Nodup
+  hkey : ∀ e ∈ s.emitters, (alookup e.watch s.handlers).isSome
+  wmem : ∀ e ∈ s.emitters, e.watch ∈ s.watches
+
+theorem contains_iff {s : State} {m : Spec} (hR : R s m) (w : Watch) :
+    m.scheduled.contains w = (s.emitterOf w).isSome := by
+  rw [Bool.eq_iff_iff, emitterOf_isSome_iff, hR.2.1]; simp
+
+theorem step (s : State) (m : Spec) (c : Call) (hR : R s m) (hI : Inv s) :
+    (call s c).2 = (specCall m c).2 ∧ R (call s c).1 (specCall m c).1 ∧ Inv (call s c).1 := by
+  obtain ⟨hH, hS, hA, hE⟩ := hR
+  have hR : R s m := ⟨hH, hS, hA, hE⟩
+  have hH' : ∀ w, (alookup w s.handlers).getD [] = m.handlers w := hH
+  cases c with
+  | schedule h w f =>
+    have hc := contains_iff hR w
+    simp only [call, specCall]
+    cases he : s.emitterOf w with
+    | some e =>
+      simp only [he, Option.isSome_some] at hc
+      simp only [hc, if_true]
+      refine ⟨by first | trivial | rfl, ⟨?_, hS, hA, hE⟩, ?_, ?_, ?_⟩
+      · intro x
+        simp only [State.handlersOf, State.addHandler, getD_ainsert, hH']
+      · exact hI.nodup
+      · intro e' he'
+        exact isSome_alookup_ainsert _ _ _ _ (hI.hkey e' he')
+      · intro e' he'
+        exact mem_addW _ _ _ (hI.wmem e' he')
+    | none =>
+      simp only [he, Option.isSome_none] at hc
+      simp only [hc, Bool.false_eq_true, if_false]
+      by_cases hf : f = .ctor
+      · simp only [hf, if_true]
+        exact ⟨by first | trivial | rfl, hR, hI⟩
+      · simp only [hf, if_false]
+        by_cases hf2 : s.alive = true ∧ f = .start
+        · have hf2m : m.alive = true ∧ f = .start := by rw [← hA]; exact hf2
+          rw [if_pos hf2, if_pos hf2m]
+          exact ⟨rfl, ⟨hH, hS, hA, hE⟩, ⟨hI.nodup, hI.hkey, hI.wmem⟩⟩
+        · have hf2m : ¬ (m.alive = true ∧ f = .start) := by rw [← hA]; exact hf2
+          rw [if_neg hf2, if_neg hf2m]
+          have hnot := emitterOf_none_iff.mp he
+          refine ⟨rfl, ⟨?_, ?_, hA, hE⟩, ?_, ?_, ?_⟩
+          · intro x
+            simp only [State.handlersOf, State.addHandler, getD_ainsert, hH']
+          · simp [State.addHandler, hS]
+          · simp only [State.addHandler, List.map_append, List.map_cons, List.map_nil]
+            rw [List.nodup_append]
+            refine ⟨hI.nodup, by simp, ?_⟩
+            intro a ha b hb
+            simp at hb; subst hb
+            intro hab; subst hab; exact hnot ha
+          · intro e' he'
+            simp only [State.addHandler, List.mem_append, List.mem_singleton] at he' ⊢
+            rcases he' with he' | he'
+            · exact isSome_alookup_ainsert _ _ _ _ (hI.hkey e' he')
+            · subst he'; simp [alookup_ainsert_self]
+          · intro e' he'
+            simp only [State.addHandler, List.mem_append, List.mem_singleton] at he'
+            rcases he' with he' | he'
+            · exact mem_addW _ _ _ (hI.wmem e' he')
+            · subst he'
+              exact self_mem_addW _ _
+  | unschedule w =>
+    have hc := contains_iff hR w
+    simp only [call, specCall]
+    cases he : s.emitterOf w with
+    | none =>
+      simp only [he, Option.isSome_none] at hc
+      simp only [hc, Bool.false_eq_true, if_false]
+      exact ⟨by first | trivial | rfl, hR, hI⟩
+    | some e =>
+      simp only [he, Option.isSome_some] at hc
+      obtain ⟨hew, hem⟩ := emitterOf_some he
+      have hk := hI.hkey e hem
+      have hw := hI.wmem e hem
+      rw [hew] at hk hw
+      have hk' : (alookup w s.handlers).isNone = false := by
+        cases hq : alookup w s.handlers <;> simp [hq] at hk ⊢
+      have hw' : s.watches.contains w = true := by simpa using hw
+      simp only [hc, if_true, hk', Bool.false_eq_true, if_false, hw']
+      refine ⟨by first | trivial | rfl, ⟨?_, ?_, hA, hE⟩, ?_, ?_, ?_⟩
+      · intro x
+        simp only [State.handlersOf]
+        rw [handlersOf_aerase, hH]
+      · simp only []
+        rw [map_watch_filter, hS]
+      · simp only []
+        rw [map_watch_filter]
+        exact hI.nodup.filter _
+      · intro e' he'
+        simp only [List.mem_filter, bne_iff_ne, ne_eq] at he'
+        rw [alookup_aerase_ne _ (fun h => he'.2 h.symm)]
+        exact hI.hkey e' he'.1
+      · intro e' he'
+        simp only [List.mem_filter, bne_iff_ne, ne_eq] at he' ⊢
+        exact ⟨hI.wmem e' he'.1, he'.2⟩
+  | addHandler h w =>
+    simp only [call, specCall]
+    refine ⟨by first | trivial | rfl, ⟨?_, hS, hA, hE⟩, hI.nodup, ?_, hI.wmem⟩
+    · intro x
+      simp only [State.handlersOf, State.addHandler, getD_ainsert, hH']
+    · intro e' he'
+      exact isSome_alookup_ainsert _ _ _ _ (hI.hkey e' he')
+  | removeHandler h w =>
+    simp only [call, specCall]
+    rw [← hH w]
+    by_cases hc : (s.handlersOf w).contains h = true
+    · rw [if_pos hc, if_pos hc]
+      refine ⟨rfl, ⟨?_, hS, hA, hE⟩, hI.nodup, ?_, hI.wmem⟩
+      · intro x
+        simp only [State.handlersOf, getD_ainsert, hH']
+      · intro e' he'
+        exact isSome_alookup_ainsert _ _ _ _ (hI.hkey e' he')
+    · rw [if_neg hc, if_neg hc]
+      refine ⟨rfl, ⟨?_, hS, hA, hE⟩, hI.nodup, ?_, hI.wmem⟩
+      · intro x
+        simp only [State.handlersOf, getD_ainsert, hH']
+        split
+        · rename_i hx; rw [hx]
+        · rfl
+      · intro e' he'
+        exact isSome_alookup_ainsert _ _ _ _ (hI.hkey e' he')
+  | unscheduleAll =>
+    simp only [call, specCall]
+    refine ⟨by first | trivial | rfl, ⟨?_, rfl, hA, hE⟩, ?_, ?_, ?_⟩
+    · intro x; rfl
+    · simp
+    · intro e he; simp at he
+    · intro e he; simp at he
+  | start failAt =>
+    simp only [call, specCall]
+    rw [← hE]
+    by_cases hes : s.everStarted = true
+    · simp only [hes, if_true]
+      exact ⟨by first | trivial | rfl, hR, hI⟩
+    · simp only [hes, Bool.false_eq_true, if_false]
+      cases failAt with
+      | none =>
+        simp only [Option.bind_none]
+        refine ⟨by first | trivial | rfl, ⟨hH, ?_, rfl, rfl⟩, ?_, ?_, ?_⟩
+        · simp only [List.map_map]
+          rw [← hS]; rfl
+        · simp only [List.map_map]
+          exact hI.nodup
+        · intro e' he'
+          simp only [List.mem_map] at he'
+          obtain ⟨e0, he0, rfl⟩ := he'
+          exact hI.hkey e0 he0
+        · intro e' he'
+          simp only [List.mem_map] at he'
+          obtain ⟨e0, he0, rfl⟩ := he'
+          exact hI.wmem e0 he0
+      | some w =>
+        have hc := contains_iff hR w
+        simp only [Option.bind_some]
+        cases he : s.emitterOf w with
+        | some bad =>
+          simp only [he, Option.isSome_some] at hc
+          obtain ⟨hew, hem⟩ := emitterOf_some he
+          simp only [hc, if_true, hew]
+          refine ⟨by first | trivial | rfl, ⟨hH, ?_, hA, rfl⟩, ?_, ?_, ?_⟩
+          · simp only []
+            rw [map_watch_filter, hS]
+          · simp only []
+            rw [map_watch_filter]
+            exact hI.nodup.filter _
+          · intro e' he'
+            simp only [List.mem_filter] at he'
+            exact hI.hkey e' he'.1
+          · intro e' he'
+            simp only [List.mem_filter] at he'
+            exact hI.wmem e' he'.1
+        | none =>
+          simp only [he, Option.isSome_none] at hc
+          simp only [hc, Bool.false_eq_true, if_false]
+          refine ⟨by first | trivial | rfl, ⟨hH, ?_, rfl, rfl⟩, ?_, ?_, ?_⟩
+          · simp only [List.map_map]
+            rw [← hS]; rfl
+          · simp only [List.map_map]
+            exact hI.nodup
+          · intro e' he'
+            simp only [List.mem_map] at he'
+            obtain ⟨e0, he0, rfl⟩ := he'
+            exact hI.hkey e0 he0
+          · intro e' he'
+            simp only [List.mem_map] at he'
+            obtain ⟨e0, he0, rfl⟩ := he'
+            exact hI.wmem e0 he0
+  | stop =>
+    simp only [call, specCall]
+    refine ⟨by first | trivial | rfl, ⟨?_, rfl, rfl, hE⟩, ?_, ?_, ?_⟩
+    · intro x; rfl
+    · simp
+    · intro e he; simp at he
+    · intro e he; simp at he
+
+theorem run_sim (calls : List Call) : ∀ (s : State) (m : Spec), R s m → Inv s →
+    (run s calls).2 = (specRun m calls).2 ∧ R (run s calls).1 (specRun m calls).1 ∧
+    Inv (run s calls).1 := by
+  induction calls with
+  | nil => intro s m hR hI; exact ⟨by first | trivial | rfl, hR, hI⟩
+  | cons c cs ih =>
+    intro s m hR hI
+    obtain ⟨h1, h2, h3⟩ := step s m c hR hI
+    obtain ⟨g1, g2, g3⟩ := ih _ _ h2 h3
+    simp only [run, specRun]
+    exact ⟨by rw [h1, g1], g2, g3⟩
+
+theorem R_init : R init Spec.init := ⟨fun _ => rfl, rfl, rfl, rfl⟩
+
+theorem Inv_init : Inv init :=
+  ⟨by simp [init], by intro e he; simp [init] at he, by intro e he; simp [init] at he⟩
+
 theorem refines_map (calls : List Call) :
     (run init calls).2 = (specRun Spec.init calls).2 ∧
     ((∀ w, (run init calls).1.handlersOf w = (specRun Spec.init calls).1.handlers w) ∧
      (run init calls).1.emitters.map Emitter.watch = (specRun Spec.init calls).1.scheduled ∧
      (run init calls).1.alive = (specRun Spec.init calls).1.alive ∧
      (run init calls).1.everStarted = (specRun Spec.init calls).1.everStarted) := by
-  sorry
+  obtain ⟨h1, h2, _⟩ := run_sim calls init Spec.init R_init Inv_init
+  exact ⟨h1, h2⟩
 
 theorem one_emitter_per_watch (calls : List Call) :
-    ((run init calls).1.emitters.map Emitter.watch).Nodup := by
-  sorry
+    ((run init calls).1.emitters.map Emitter.watch).Nodup :=
+  (run_sim calls init Spec.init R_init Inv_init).2.2.nodup
 
 theorem emitters_are_scheduled (calls : List Call) (w : Watch) :
     (∃ e ∈ (run init calls).1.emitters, e.watch = w) ↔ w ∈ (specRun Spec.init calls).1.scheduled := by
-  sorry
+  rw [← (refines_map calls).2.2.1]
+  simp [List.mem_map]
+
+theorem failed_schedule_aux (t : State) (h : Handler) (w : Watch) (f : Fault) (k : String)
+    (hr : (call t (.schedule h w f)).2 = .raised k) :
+    (call t (.schedule h w f)).1.handlers = t.handlers ∧
+    (call t (.schedule h w f)).1.emitters = t.emitters ∧
+    (call t (.schedule h w f)).1.watches = t.watches ∧
+    (call t (.schedule h w f)).1.alive = t.alive := by
+  simp only [call] at hr ⊢
+  cases he : t.emitterOf w with
+  | some e => simp [he] at hr
+  | none =>
+    simp only [he] at hr ⊢
+    by_cases hf : f = .ctor
+    · rw [if_pos hf]; exact ⟨rfl, rfl, rfl, rfl⟩
+    · rw [if_neg hf] at hr ⊢
+      by_cases hf2 : t.alive = true ∧ f = .start
+      · rw [if_pos hf2]; exact ⟨rfl, rfl, rfl, rfl⟩
+      · rw [if_neg hf2] at hr
+        simp at hr
 
 theorem failed_schedule_no_effect (calls : List Call) (h : Handler) (w : Watch) (f : Fault) (k : String)
     (hr : (call (run init calls).1 (.schedule h w f)).2 = .raised k) :
     let s := (run init calls).1
     let s' := (call s (.schedule h w f)).1
     s'.handlers = s.handlers ∧ s'.emitters = s.emitters ∧ s'.watches = s.watches ∧ s'.alive = s.alive := by
-  sorry
+  intro s s'
+  exact failed_schedule_aux _ h w f k hr
 
 theorem unschedule_independent (s : State) (w w' : Watch) (hne : w' ≠ w) :
     (call s (.unschedule w)).1.handlersOf w' = s.handlersOf w' ∧
     (call s (.unschedule w)).1.emitterOf w' = s.emitterOf w' := by
-  sorry
+  simp only [call]
+  cases he : s.emitterOf w with
+  | none => exact ⟨rfl, rfl⟩
+  | some e =>
+    simp only []
+    by_cases hk : (alookup w s.handlers).isNone = true
+    · rw [if_pos hk]; exact ⟨rfl, rfl⟩
+    · rw [if_neg hk]
+      constructor
+      · simp only [State.handlersOf]
+        rw [alookup_aerase_ne _ (fun h => hne h.symm)]
+      · simp only [State.emitterOf]
+        rw [List.find?_filter]
+        congr 1
+        funext a
+        by_cases ha : a.watch = w'
+        · simp [ha, hne]
+        · simp [ha]
 
 end WD.ProofsReg
